@@ -412,7 +412,7 @@ def run(chk, prog):
             chk.require(dir_ok and ngb_ok, "S4", "%s sweeps the face / neighbour stored in the task" % typ,
                         where(call, ex), "direction from the task: %s, neighbour from the task: %s" % (dir_ok, ngb_ok),
                         function=ex["full"], construct="dispatch args %s" % typ)
-    chk.floor("S4", n4, 16)
+    chk.floor("S4", n4, 14)
     # O: ordering premises (C07 graph rules)
     from ..report import Check
     sub = Check("C07", "embedded", "other")
